@@ -66,22 +66,25 @@ Fixpoint bt (p : prog) (t : list N) (fuel : nat) (seen : list nat) (pc pos : nat
     end
   end.
 
+(* The recursion depth [F] is a parameter of the whole model (one value per evaluated case, chosen by the
+   driver above bt_fuel of every program and buffer of the case), so that statements relating runs on a
+   buffer and on its slices hold for every F and need no "enough fuel" side condition. *)
 Definition bt_fuel (p : prog) (t : list N) : nat := (S (length t)) * (S (size p)) * 2.
 
-Definition match_at (p : prog) (ncap : nat) (t : list N) (i : nat) : option caps :=
-  bt p t (bt_fuel p t) [] (start p) i (set_nth 0 (Some i) (repeat None ncap)).
+Definition match_at (F : nat) (p : prog) (ncap : nat) (t : list N) (i : nat) : option caps :=
+  bt p t F [] (start p) i (set_nth 0 (Some i) (repeat None ncap)).
 
 (* Regexp.FindSubmatchIndex: the first start position (0..len) at which the search succeeds *)
-Fixpoint search_from (p : prog) (ncap : nat) (t : list N) (n : nat) (i : nat) : option caps :=
+Fixpoint search_from (F : nat) (p : prog) (ncap : nat) (t : list N) (n : nat) (i : nat) : option caps :=
   match n with
   | O => None
-  | S n' => match match_at p ncap t i with
+  | S n' => match match_at F p ncap t i with
             | Some r => Some r
-            | None => search_from p ncap t n' (S i)
+            | None => search_from F p ncap t n' (S i)
             end
   end.
 
-Definition search (p : prog) (ncap : nat) (t : list N) : option caps := search_from p ncap t (S (length t)) 0.
+Definition search (F : nat) (p : prog) (ncap : nat) (t : list N) : option caps := search_from F p ncap t (S (length t)) 0.
 
 (* Prog.Prefix (the literal prefix of programs that are not one-pass, i.e. do not start with \A) *)
 Fixpoint skip_nop (p : prog) (fuel : nat) (pc : nat) : option inst :=
